@@ -875,12 +875,14 @@ class ServiceDiscover:
     def handle_offer(
         self, entry: someip.header.SOMEIPSDEntry, addr: _T_SOCKADDR
     ) -> None:
+        if entry.ttl == 0:
+            # always apply StopOffer: the service may have been found while it was
+            # still being watched
+            self.service_offer_stopped(addr, entry)
+            return
         if not self.is_watching_service(entry):
             return
-        if entry.ttl == 0:
-            self.service_offer_stopped(addr, entry)
-        else:
-            self.service_offered(addr, entry)
+        self.service_offered(addr, entry)
 
     def is_watching_service(self, entry: someip.header.SOMEIPSDEntry):
         if self.watcher_all_services:
